@@ -21,6 +21,7 @@ import (
 	"google.golang.org/protobuf/proto"
 
 	"github.com/temporalio/s2s-proxy/config"
+	"github.com/temporalio/s2s-proxy/encryption"
 	"github.com/temporalio/s2s-proxy/logging"
 	_ "github.com/temporalio/s2s-proxy/proto/compat"
 	"github.com/temporalio/s2s-proxy/vfshared"
@@ -230,7 +231,11 @@ func containsStr(s, sub string) bool {
 // vfInvoke calls one method generically. For streaming methods it opens the stream, half-closes and reads until
 // the stream ends. Returns the response (unary) and the final error.
 func vfInvoke(conn *grpc.ClientConn, m vfshared.Method, req proto.Message, md metadata.MD) (proto.Message, error) {
-	ctx, cancel := context.WithTimeout(context.Background(), 20*time.Second)
+	return vfInvokeT(conn, m, req, md, 20*time.Second)
+}
+
+func vfInvokeT(conn *grpc.ClientConn, m vfshared.Method, req proto.Message, md metadata.MD, timeout time.Duration) (proto.Message, error) {
+	ctx, cancel := context.WithTimeout(context.Background(), timeout)
 	defer cancel()
 	if md != nil {
 		ctx = metadata.NewOutgoingContext(ctx, md)
@@ -357,6 +362,78 @@ func vfNewMuxWorld(transport string, edit func(c *config.ClusterConnConfig)) (*v
 	if lastErr != nil {
 		w.Close()
 		return nil, lastErr
+	}
+	if w.inbound, err = grpc.NewClient(w.inboundAddr, grpc.WithTransportCredentials(insecure.NewCredentials())); err != nil {
+		w.Close()
+		return nil, err
+	}
+	if w.outbound, err = grpc.NewClient(w.outboundAddr, grpc.WithTransportCredentials(insecure.NewCredentials())); err != nil {
+		w.Close()
+		return nil, err
+	}
+	return w, nil
+}
+
+// vfNewMuxWorldTLS: like vfNewMuxWorld("mux-server") but the mux listener of the proxy under test is behind TLS
+// (srvTLS) and the peer proxy establishes with peerTLS. expectUp=false: do not wait for sessions to come up.
+func vfNewMuxWorldTLS(srvTLS, peerTLS encryption.TLSConfig, expectUp bool) (*vfWorld, error) {
+	w := &vfWorld{}
+	var err error
+	if w.local, err = vfNewRecorder(); err != nil {
+		return nil, err
+	}
+	if w.remote, err = vfNewRecorder(); err != nil {
+		w.Close()
+		return nil, err
+	}
+	addrs, e := vfFreeAddrs(3)
+	if e != nil {
+		w.Close()
+		return nil, e
+	}
+	muxAddr, myOutbound, peerOutbound := addrs[0], addrs[1], addrs[2]
+	cfg := config.ClusterConnConfig{
+		Name: "vfmuxtls",
+		Local: config.ClusterDefinition{ConnectionType: config.ConnTypeTCP,
+			TcpClient: config.TCPTLSInfo{ConnectionString: w.local.addr}, TcpServer: config.TCPTLSInfo{ConnectionString: myOutbound}},
+		Remote: config.ClusterDefinition{ConnectionType: config.ConnTypeMuxServer, MuxCount: 1, MuxAddressInfo: config.TCPTLSInfo{ConnectionString: muxAddr, TLSConfig: srvTLS}},
+	}
+	peerCfg := config.ClusterConnConfig{
+		Name: "vfmuxtlspeer",
+		Local: config.ClusterDefinition{ConnectionType: config.ConnTypeTCP,
+			TcpClient: config.TCPTLSInfo{ConnectionString: w.remote.addr}, TcpServer: config.TCPTLSInfo{ConnectionString: peerOutbound}},
+		Remote: config.ClusterDefinition{ConnectionType: config.ConnTypeMuxClient, MuxCount: 1, MuxAddressInfo: config.TCPTLSInfo{ConnectionString: muxAddr, TLSConfig: peerTLS}},
+	}
+	ctx, cancel := context.WithCancel(context.Background())
+	w.cancel = cancel
+	lp := logging.NewLoggerProvider(vfNoop(), config.NewMockConfigProvider(config.S2SProxyConfig{}))
+	cc, e := NewClusterConnection(ctx, cfg, lp)
+	if e != nil {
+		w.Close()
+		return nil, e
+	}
+	pc, e := NewClusterConnection(ctx, peerCfg, lp)
+	if e != nil {
+		w.Close()
+		return nil, e
+	}
+	w.cc = cc
+	cc.Start()
+	pc.Start()
+	w.inboundAddr, w.outboundAddr = peerOutbound, myOutbound
+	deadline := time.Now().Add(15 * time.Second)
+	if !expectUp {
+		deadline = time.Now().Add(3 * time.Second) // several establish attempts fit in here (retry starts at 1 s)
+	}
+	for !(cc.outboundClient.CanMakeCalls() && pc.outboundClient.CanMakeCalls()) {
+		if time.Now().After(deadline) {
+			if expectUp {
+				w.Close()
+				return nil, fmt.Errorf("TLS mux world did not come up in 15s")
+			}
+			break
+		}
+		time.Sleep(10 * time.Millisecond)
 	}
 	if w.inbound, err = grpc.NewClient(w.inboundAddr, grpc.WithTransportCredentials(insecure.NewCredentials())); err != nil {
 		w.Close()
